@@ -664,8 +664,127 @@ Section Knot.
       rewrite (md_reduce c' mcid allow interop vrf (written c Sv) (omem m) m Hms' Hpl W2 E4 E2 E3).
       exact Hre.
     Qed.
+    Lemma init_idem : forall c allow interop kw vrf obj,
+      class_okw c = true -> plain_dict kw = true ->
+      init_expr f c allow interop kw vrf = Ok obj ->
+      idem_result c kw obj (fun kw' => init_expr f c allow interop kw' vrf).
+    Proof.
+      intros c allow interop kw vrf obj Hok Hp H. unfold class_okw in Hok.
+      apply andb_true_iff in Hok. destruct Hok as [Hok _]. apply andb_true_iff in Hok. destruct Hok as [Hok Hinit].
+      apply andb_true_iff in Hok. destruct Hok as [Hnd Hslots]. apply nodupb_NoDup in Hnd.
+      unfold init_okw, md_ok in Hinit. unfold init_expr in *.
+      destruct (cinit c) as [| names | | | vv | |] eqn:Ei; cbn [init_ok orb] in Hinit; try discriminate.
+      - exact (gen_idem c allow interop kw vrf obj Hnd Hslots Hp H).
+      - rewrite orb_false_r in Hinit.
+        rewrite (pos_filter_id vr names kw Hinit (plain_members_nonnull kw Hp)) in H.
+        destruct (gen_idem c allow interop kw vrf obj Hnd Hslots Hp H) as [Sv [hc [Eo [Hre [Hpl [Hres Hgiv]]]]]].
+        exists Sv, hc. split; [exact Eo |]. split; [| auto].
+        rewrite (pos_filter_id vr names (written c Sv) Hinit (plain_members_nonnull _ Hpl)). exact Hre.
+      - exact (gen_idem c allow interop kw vrf obj Hnd Hslots Hp H).
+      - apply (md_idem c vv allow interop kw vrf obj Ei); auto. unfold md_ok. rewrite Ei. exact Hinit.
+      - exact (gen_idem c allow interop kw vrf obj Hnd Hslots Hp H).
+    Qed.
   End Level.
+
+  Theorem run_construct_idem : forall fuel, claim fuel.
+  Proof.
+    induction fuel as [| f IH]; intros kid allow interop kw vrefs o Hm Hp Hid H.
+    - cbn [run] in H. discriminate.
+    - destruct (ids_found kid Hm) as [c Ef].
+      pose proof (ids_class_okw kid c Hm Ef) as Hok.
+      assert (Hiw : init_okw c = true).
+      { unfold class_okw in Hok. apply andb_true_iff in Hok. destruct Hok as [Hok _]. apply andb_true_iff in Hok. tauto. }
+      rewrite (run_unfold f kid allow interop kw vrefs c Ef Hiw) in H.
+      rewrite (run_unfold f kid allow interop _ vrefs c Ef Hiw).
+      destruct (amem (u "_valid_refs") kw || amem (u "allow_custom") kw || amem (u "interoperability") kw || amem (u "self") kw) eqn:Eres;
+        try discriminate.
+      destruct (reserved_split kw Eres) as [R1 [R2 [R3 R4]]].
+      set (vrf := match cfamily c with FSco => Some match vrefs with Some r => r | None => [] end | _ => None end) in *.
+      unfold bind in H.
+      destruct (init_expr f c allow interop kw vrf) as [obj | |] eqn:Eg; try discriminate.
+      destruct (init_idem f IH c allow interop kw vrf obj Hok Hp Eg) as [Sv [hc [Eobj [Hre [Hplw [Hresv Hgiven]]]]]].
+      subst obj.
+      pose proof Hok as Hok'. unfold class_okw in Hok'.
+      apply andb_true_iff in Hok'. destruct Hok' as [Hok' Hidslot]. apply andb_true_iff in Hok'. destruct Hok' as [Hok' _].
+      apply andb_true_iff in Hok'. destruct Hok' as [Hnd Hslots]. apply nodupb_NoDup in Hnd.
+      assert (Eo : o = PObject (cid c) Sv (defaulted_names c Sv) hc).
+      { unfold id_given in Hid. rewrite Ef in Hid. unfold is_sco21 in Hid. unfold post in H.
+        destruct (cfamily c); try (inv_ok H; reflexivity).
+        destruct (cver c); try (inv_ok H; reflexivity).
+        cbn [negb orb] in Hid. rewrite Hid in H. inv_ok H. reflexivity. }
+      subst o.
+      assert (Eom : omem (PObject (cid c) Sv (defaulted_names c Sv) hc) = written c Sv).
+      { unfold omem. rewrite encode_obj. reflexivity. }
+      rewrite Eom.
+      assert (In1 : In (u "_valid_refs") reserved_names) by (unfold reserved_names; cbn [map In]; repeat (try (left; reflexivity); right)).
+      assert (In2 : In (u "allow_custom") reserved_names) by (unfold reserved_names; cbn [map In]; repeat (try (left; reflexivity); right)).
+      assert (In3 : In (u "interoperability") reserved_names) by (unfold reserved_names; cbn [map In]; repeat (try (left; reflexivity); right)).
+      assert (In4 : In (u "self") reserved_names) by (unfold reserved_names; cbn [map In]; repeat (try (left; reflexivity); right)).
+      split; [rewrite encode_obj; reflexivity |].
+      split; [| split; [| exact Hplw]].
+      + unfold reserved_kw. rewrite (Hresv _ In2 R2), (Hresv _ In3 R3), (Hresv _ In4 R4). reflexivity.
+      + rewrite (Hresv _ In1 R1), (Hresv _ In2 R2), (Hresv _ In3 R3), (Hresv _ In4 R4). cbn [orb].
+        fold vrf. cbv beta in Hre. rewrite Hre. cbn [bind]. unfold post.
+        unfold id_given in Hid; rewrite Ef in Hid; unfold is_sco21 in Hid, Hidslot.
+        destruct (cfamily c); try reflexivity; destruct (cver c); try reflexivity.
+        cbn [negb orb] in Hid, Hidslot.
+        assert (Hidw : amem (u "id") (written c Sv) = true).
+        { unfold amem; rewrite alookup_written.
+          pose proof (Hgiven _ Hid) as Hs; unfold amem in Hs.
+          destruct (alookup (u "id") Sv) as [v0 |] eqn:Ev; try discriminate.
+          destruct (mem_ustr (u "id") (defaulted_names c Sv)) eqn:Ed; auto.
+          exfalso.
+          destruct (mem_defaulted vr nestable c Hnd Hslots _ _ Ed) as [sl [b [E1 [E2 _]]]].
+          rewrite E1 in Hidslot; rewrite E2 in Hidslot; discriminate. }
+        rewrite Hidw; reflexivity.
+  Qed.
 End Knot.
+
+(* ------------------------------------------------------------------ classes whose __init__ leaves the arguments alone *)
+Section Plain.
+  Variable vr : variant.
+  Variable ev : env.
+  Variable w : world.
+  Variable pattern_ok : ver -> ustring -> bool.
+  Variable selectors_ok : list (ustring * pval) -> pval -> result bool.
+  Variable ids : list ustring.
+  Hypothesis Hclosed : closed_ok vr w ids = true.
+
+  Notation RUN := (run vr ev w pattern_ok selectors_ok).
+
+  (* what a successful constructor run is: the class and the generic constructor over the recursive calls *)
+  Lemma run_construct_cg : forall f kid allow interop kw vrefs o,
+    mem_ustr kid ids = true -> plain_dict kw = true -> id_given w kid kw = true ->
+    RUN (S f) (RConstruct kid allow interop kw vrefs) = Ok o ->
+    exists c, find_class (wclasses w) kid = Some c /\ class_ok vr w ids c = true /\
+      construct_generic vr ev w pattern_ok selectors_ok
+        (fun k a i kw0 => RUN f (RConstruct k a i kw0 None))
+        (fun a i d => RUN f (RParse a i None d))
+        (fun vv refs a d => RUN f (RParseObs (Some vv) refs a false d))
+        (S f) c allow interop kw []
+        (match cfamily c with FSco => Some match vrefs with Some r => r | None => [] end | _ => None end) = Ok o.
+  Proof.
+    intros f kid allow interop kw vrefs o Hm Hpl Hid H.
+    destruct (ids_found vr w ids (closed_ok_weaken vr w ids Hclosed) kid Hm) as [c Ef].
+    exists c. split; [exact Ef |]. pose proof (ids_class_ok vr w ids Hclosed kid c Hm Ef) as Hok. split; [exact Hok |].
+    unfold class_ok in Hok.
+    apply andb_true_iff in Hok. destruct Hok as [Hok _]. apply andb_true_iff in Hok. destruct Hok as [_ Hinit].
+    assert (Hiw : init_okw vr w ids c = true) by (unfold init_okw; rewrite Hinit; reflexivity).
+    rewrite (run_unfold vr ev w pattern_ok selectors_ok ids f kid allow interop kw vrefs c Ef Hiw) in H.
+    destruct (amem (u "_valid_refs") kw || amem (u "allow_custom") kw || amem (u "interoperability") kw || amem (u "self") kw);
+      try discriminate.
+    unfold bind in H.
+    match type of H with match ?g with _ => _ end = _ => destruct g as [obj | |] eqn:Eg; try discriminate end.
+    assert (Eo : o = obj).
+    { unfold id_given in Hid. rewrite Ef in Hid. unfold is_sco21 in Hid. unfold post in H.
+      destruct obj; try (inv H; reflexivity).
+      destruct (cfamily c); try (inv H; reflexivity). destruct (cver c); try (inv H; reflexivity).
+      cbn [negb orb] in Hid. rewrite Hid in H. inv H. reflexivity. }
+    subst obj. unfold init_expr, GEN in Eg.
+    destruct (cinit c) as [| names | | | vv | |]; cbn [init_ok] in Hinit; try discriminate; try exact Eg.
+    rewrite (pos_filter_id vr names kw Hinit (plain_members_nonnull kw Hpl)) in Eg. exact Eg.
+  Qed.
+End Plain.
 
 (* ------------------------------------------------------------------ the proved classes of a world *)
 (* greatest set of class ids closed under nesting whose tables pass class_ok: start from every class
@@ -678,6 +797,15 @@ Fixpoint refine_ids (n : nat) (vr : variant) (w : world) (ids : list ustring) : 
 
 Definition proved_ids (vr : variant) (w : world) : list ustring := refine_ids 8 vr w (map cid (wclasses w)).
 
+(* the same with the wrapping __init__ forms admitted (class_okw) *)
+Definition keep_okw (vr : variant) (w : world) (ids : list ustring) : list ustring :=
+  filter (fun cid0 => match find_class (wclasses w) cid0 with Some c => class_okw vr w ids c | None => false end) ids.
+
+Fixpoint refine_idsw (n : nat) (vr : variant) (w : world) (ids : list ustring) : list ustring :=
+  match n with O => ids | S k => refine_idsw k vr w (keep_okw vr w ids) end.
+
+Definition proved_idsw (vr : variant) (w : world) : list ustring := refine_idsw 8 vr w (map cid (wclasses w)).
+
 (* corollaries in the vocabulary of the property *)
 Section Corollaries.
   Variable vr : variant.
@@ -687,7 +815,7 @@ Section Corollaries.
   Variable selectors_ok : list (ustring * pval) -> pval -> result bool.
   Hypothesis Hpad : vr_year_pad vr = true.
   Variable ids : list ustring.
-  Hypothesis Hclosed : closed_ok vr w ids = true.
+  Hypothesis Hclosed : closed_okw vr w ids = true.
 
   (* constructing from the serialization gives the same object (same class, members, defaulted list, flag) *)
   Theorem construct_roundtrip : forall fuel kid allow interop kw vrefs o,
